@@ -183,6 +183,16 @@ func drawScenario(rng *rand.Rand, family string, quick bool, forceLate ...bool) 
 		sc.PDeposits = 0.35 // the eth1 vote of period 0 passes inside the capella epochs: deposits due on the very block that tips it
 		sc.Eth1Creds = 0.7
 		sc.Epochs = 9 + rng.IntN(3)
+	case "massslash":
+		// most of the registry is slashed within a few epochs: correlation penalties take whole effective balances,
+		// further penalties hit validators with (almost) nothing left (decrease_balance clamps at zero)
+		sc.ForcedSlashings = true
+		sc.CustomSlashingsVector = true
+		sc.Validators = 40 + rng.IntN(24)
+		sc.ExtraBalance = false
+		sc.POps = 0
+		sc.PBlock = 1
+		sc.Epochs = 12
 	case "ejectall":
 		sc.Epochs = 4
 		sc.POps = 1
@@ -280,6 +290,7 @@ func runChain(b *fw.B, sc scenario, hooks chainHooks, report func(m *sim.Mismatc
 		report(&sim.Mismatch{Kind: "genesis", What: err.Error()}, nil)
 		return false
 	}
+	refspec.OnBalanceSaturated = func() { b.Inc("refspec_decrease_balance_clamped_at_zero") }
 	c.Sp.Observe = func(ev string) {
 		b.Inc("refspec_" + ev) // executions of that branch by the reference (builder runs included)
 	}
